@@ -128,6 +128,11 @@ func moSpecs(quick bool) []moSpec {
 	// imported types in action signatures: exercises the import alias table
 	specs = append(specs, moSpec{Name: "imports", Lox: map[string]string{"g.lox": "@lexer\nX = 'x'\nY = 'y'\nZ = 'z'\n@parser\n@start s = a b c\na = X\nb = Y\nc = Z\n"},
 		Go: map[string]string{"user.go": "package carrier\n\nimport (\n\t\"bytes\"\n\t\"strings\"\n\t\"time\"\n)\n\ntype Token struct{ Type int }\n\ntype parser struct{ lox }\n\nfunc (p *parser) on_a(_ Token) time.Duration { return 1 }\nfunc (p *parser) on_b(_ Token) *strings.Builder { return nil }\nfunc (p *parser) on_c(_ Token) *bytes.Buffer { return nil }\nfunc (p *parser) on_s(a time.Duration, b *strings.Builder, c *bytes.Buffer) int { return 0 }\n"}})
+	// the same, with the imported types first named by different productions
+	specs = append(specs, moSpec{Name: "imports-spread", Lox: map[string]string{"g.lox": "@lexer\nX = 'x'\nY = 'y'\nZ = 'z'\n@parser\n@start s = p q\np = a\nq = b c\na = X\nb = Y\nc = Z\n"},
+		Go: map[string]string{"user.go": "package carrier\n\nimport (\n\t\"bytes\"\n\t\"container/list\"\n\t\"container/ring\"\n\t\"strings\"\n\t\"time\"\n)\n\ntype Token struct{ Type int }\n\ntype parser struct{ lox }\n\n" +
+			"func (p *parser) on_a(_ Token) time.Duration { return 1 }\nfunc (p *parser) on_b(_ Token) *strings.Builder { return nil }\nfunc (p *parser) on_c(_ Token) *bytes.Buffer { return nil }\n" +
+			"func (p *parser) on_p(a time.Duration) *list.List { return nil }\nfunc (p *parser) on_q(b *strings.Builder, c *bytes.Buffer) *ring.Ring { return nil }\nfunc (p *parser) on_s(x *list.List, y *ring.Ring) int { return 0 }\n"}})
 	for bi, b := range c17Bases() {
 		files, _ := b.render()
 		specs = append(specs, moSpec{Name: fmt.Sprintf("c17base%d", bi), Lox: files, Go: nil})
